@@ -4,7 +4,7 @@ func init() {
 	register(&PropDef{
 		ID:          "C01",
 		Level:       "other",
-		Explanation: "The concurrency bound is decided as a set of inductive lemmas over single operations, each a shape of the code (their conjunction over histories is argued in DESIGN.md, not mechanised): ADMIT-GUARD — the start function is called only where the admission decision's value set is {Start}, and in the dequeue loop only over a decision taken in the same iteration; START-ONLY-IF-FREE — on every order type of its inputs the admission table yields Start only if running < concurrency; NO UNDERCOUNT — the counting function ranges over the pipeline's whole list and increments whenever started ∧ ¬completed ∧ ¬canceled (8-row table, implication); SLOT-END — only the completion handler marks a job completed, it is called only by the job's scheduling goroutine after Scheduler.Schedule returned, whose stage goroutines are WaitGroup-paired and waited for before every return; the cancel request marks only unstarted jobs canceled directly; REGISTERED-BEFORE-STARTED; decision and start lie in one lock region; NO LOST UPDATE on the wait list (a popped job cannot reappear and be started twice); RELOAD APPLIES — in package app every path of the reload function that finds the freshly loaded definitions unequal passes them to ReplaceDefinitions, and the baseline of that comparison is a variable that outlives the invocation and is set to the applied definitions (a changed limit is not silently ignored).",
+		Explanation: "The concurrency bound is decided as a set of inductive lemmas over single operations, each a shape of the code (their conjunction over histories is argued in DESIGN.md, not mechanised): ADMIT-GUARD — the start function is called only where the admission decision's value set is {Start}, and in the dequeue loop only over a decision taken in the same iteration; START-ONLY-IF-FREE — on every order type of its inputs the admission table yields Start only if running < concurrency; NO UNDERCOUNT — the counting function ranges over the pipeline's whole list and increments whenever started ∧ ¬completed ∧ ¬canceled (8-row table, implication); SLOT-END — only the completion handler marks a job completed, it is called only by the job's scheduling goroutine after Scheduler.Schedule returned, whose stage goroutines are WaitGroup-paired and waited for before every return; the cancel request marks only unstarted jobs canceled directly; REGISTERED-BEFORE-STARTED; decision and start lie in one lock region; NO LOST UPDATE on the wait list (a popped job cannot reappear and be started twice); NEVER UNLISTED — the retention decision table never removes a waiting or unfinished job from the list the count ranges over; RELOAD APPLIES — in package app every path of the reload function that finds the freshly loaded definitions unequal passes them to ReplaceDefinitions, and the baseline of that comparison is a variable that outlives the invocation and is set to the applied definitions (a changed limit is not silently ignored).",
 		Trusted:     []string{"C13 (operations are atomic under the runner mutex)", "upstream taskctl runner executes a stage only inside Runner.Run"},
 		NotDecided:  []string{"joint sufficiency of the lemmas over arbitrary histories (paper argument)", "effects of lowering the limit on already running jobs (allowed by the statement)"},
 		Check: func(w *World, r *Report) {
@@ -25,7 +25,9 @@ func init() {
 			ro.noLostUpdate(r, "no-lost-update")
 			// a changed limit governs the jobs started after the change: the reload path applies every detected edit
 			checkReloadUsesEquals(w, r)
-			r.Floor("table.", 3)
+			// the count ranges over the pipeline's job list: a job that still counts as executing is never taken off it
+			retentionTable(w, r)
+			r.Floor("table.", 4)
 			r.Floor("accept.", 4)
 			r.Floor("dequeue.", 3)
 			r.Floor("slot-end", 6)
